@@ -1,0 +1,169 @@
+//! Verification hooks (compiled only with `--cfg redb_verif`): plain-data views of internal
+//! state and thin wrappers around crate-private types. Nothing here changes behaviour.
+
+use crate::tree_store::page_store::base::{PageNumber, PageTracker};
+use crate::tree_store::page_store::buddy_allocator::BuddyAllocator;
+use crate::tree_store::page_store::page_manager::{
+    AllocationPolicy, PageAllocator, TransactionalMemory,
+};
+use crate::tree_store::page_store::{InMemoryBackend, Page};
+use crate::{DatabaseError, StorageError};
+use alloc::boxed::Box;
+use alloc::sync::Arc;
+use alloc::vec::Vec;
+
+/// A page number as stored in the file (region, index at its order, order)
+#[derive(Copy, Clone, Debug, PartialEq, Eq, PartialOrd, Ord, Hash)]
+pub struct PageId {
+    pub region: u32,
+    pub index: u32,
+    pub order: u8,
+}
+
+/// root page, checksum, entry count
+#[derive(Copy, Clone, Debug, PartialEq, Eq)]
+pub struct RootInfo {
+    pub page: PageId,
+    pub checksum: u128,
+    pub length: u64,
+}
+
+#[derive(Clone, Debug, Default)]
+pub struct RegionInfo {
+    /// pages currently in the region
+    pub len: u32,
+    /// order-0 page indices that are allocated
+    pub allocated: Vec<u32>,
+}
+
+#[derive(Clone, Debug, Default)]
+pub struct Snapshot {
+    pub page_size: u32,
+    pub region_max_pages: u32,
+    pub region_header_pages: u32,
+    pub allocator_state_loaded: bool,
+    pub needs_repair: bool,
+    pub regions: Vec<RegionInfo>,
+    /// roots served to new transactions (includes non-durable commits)
+    pub data_root: Option<RootInfo>,
+    pub system_root: Option<RootInfo>,
+    /// roots of the last durable commit
+    pub durable_data_root: Option<RootInfo>,
+    pub durable_system_root: Option<RootInfo>,
+    pub last_committed_transaction_id: u64,
+    pub last_durable_transaction_id: u64,
+    /// pages allocated by non-durable commits (still reclaimable)
+    pub unpersisted_pages: Vec<PageId>,
+    /// data-tree pages freed by non-durable commits, by transaction id (in-memory stand-in for the
+    /// freed table)
+    pub unpersisted_data_freed: Vec<(u64, Vec<PageId>)>,
+    pub post_commit_allocations: Vec<PageId>,
+    /// tracker: ids of live read snapshots with reference counts
+    pub live_read_transactions: Vec<(u64, u64)>,
+    pub file_len: u64,
+}
+
+/// Thin wrapper around the crate-private buddy allocator
+pub struct Buddy(BuddyAllocator);
+
+impl Buddy {
+    pub fn new(num_pages: u32, max_page_capacity: u32) -> Self {
+        Buddy(BuddyAllocator::new(num_pages, max_page_capacity))
+    }
+    pub fn alloc(&mut self, order: u8) -> Option<u32> {
+        self.0.alloc(order)
+    }
+    pub fn alloc_lowest(&mut self, order: u8) -> Option<u32> {
+        self.0.alloc_lowest(order)
+    }
+    pub fn free(&mut self, page: u32, order: u8) -> u8 {
+        self.0.free(page, order)
+    }
+    pub fn record_alloc(&mut self, page: u32, order: u8) -> bool {
+        self.0.record_alloc(page, order)
+    }
+    pub fn resize(&mut self, new_size: u32) {
+        self.0.resize(new_size);
+    }
+    pub fn len(&self) -> u32 {
+        self.0.len()
+    }
+    pub fn is_empty(&self) -> bool {
+        self.0.len() == 0
+    }
+    pub fn max_order(&self) -> u8 {
+        self.0.get_max_order()
+    }
+    pub fn highest_free_order(&self) -> Option<u8> {
+        self.0.highest_free_order()
+    }
+    pub fn trailing_free_pages(&self) -> u32 {
+        self.0.trailing_free_pages()
+    }
+    pub fn count_allocated_pages(&self) -> u32 {
+        self.0.count_allocated_pages()
+    }
+    pub fn count_free_pages(&self) -> u32 {
+        self.0.count_free_pages()
+    }
+    pub fn to_vec(&self) -> Vec<u8> {
+        self.0.to_vec()
+    }
+    pub fn from_bytes(data: &[u8]) -> Self {
+        Buddy(BuddyAllocator::from_bytes(data))
+    }
+    pub fn hash(&self) -> u128 {
+        self.0.xxh3_hash()
+    }
+}
+
+/// Thin wrapper around the page manager's allocation path (region tracker + regional allocators
+/// + file growth) over an in-memory backend
+pub struct Mem {
+    mem: Arc<TransactionalMemory>,
+    allocator: PageAllocator,
+}
+
+impl Mem {
+    pub fn new(page_size: usize, region_size: u64) -> Result<Self, DatabaseError> {
+        let mem = TransactionalMemory::new(
+            Box::new(InMemoryBackend::new()),
+            true,
+            page_size,
+            Some(region_size),
+            0,
+            false,
+        )?;
+        mem.reset_allocator_state()?;
+        let mem = Arc::new(mem);
+        let allocator = PageAllocator::new(mem.clone(), AllocationPolicy::Default);
+        Ok(Mem { mem, allocator })
+    }
+
+    pub fn allocate(&self, bytes: usize, lowest: bool) -> Result<PageId, StorageError> {
+        let tracker = PageTracker::ignore();
+        let page = if lowest {
+            self.allocator.allocate_lowest(bytes, &tracker)?
+        } else {
+            self.allocator.allocate(bytes, &tracker)?
+        };
+        let n = page.get_page_number();
+        drop(page);
+        Ok(PageId {
+            region: n.region,
+            index: n.page_index,
+            order: n.page_order,
+        })
+    }
+
+    pub fn free(&self, page: PageId) {
+        self.allocator.free(
+            PageNumber::new(page.region, page.index, page.order),
+            &PageTracker::ignore(),
+        );
+    }
+
+    pub fn snapshot(&self) -> Snapshot {
+        self.mem.verif_snapshot()
+    }
+}
